@@ -1105,7 +1105,7 @@ impl Property for C01 {
         r
     }
     fn rule(&self) -> String {
-        "proptest-generated histories (max 1-5/8, max_wait none/zero/finite, 2-12/32 callers on 1-4 clones of up to two independently layered services, arrival instants, inner latency/outcome incl. panic and never, cancellation points, poll-order choices) run on the hand-driven executor under the virtual clock; oracle: in-flight (entered, not finished/failed/panicked/dropped) <= max at every inner entry and every quiescent instant, per service, plus a final probe of max+1 gated calls. About one case in 600 is a real-thread stress instead: 3-8 OS threads make 3000/20000 calls each through clones of one bulkhead (reject_when_full / max_wait 0 / unbounded wait with give-up), 0-3 slots parked, the inner service counts the requests inside it: peak <= max. Non-trivial: the case reaches in-flight = max with a further caller queued AND contains a cancellation while queued/running, an inner panic, or a release and an arrival in the same instant; distinct by hash of the case".into()
+        "proptest-generated histories (max 1-5/8, max_wait none/zero/finite, 2-12/32 callers on 1-4 clones of up to two independently layered services, arrival instants, inner latency/outcome incl. panic and never, cancellation points, poll-order choices) run on the hand-driven executor under the virtual clock; oracle: in-flight (entered, not finished/failed/panicked/dropped) <= max at every inner entry and every quiescent instant, per service, plus a final probe of max+1 gated calls. About one case in 600 is a real-thread stress instead: 3-8 OS threads make 3000/20000 calls each through clones of one bulkhead (reject_when_full / max_wait 0 / unbounded wait with give-up), 0-3 slots parked, the inner service counts the requests inside it: peak <= max.Also generated: event listeners, one handle per service with no clone alive, first polls on an exhausted cooperative budget, a transient readiness error of the wrapped service seen through one handle. Non-trivial: the case reaches in-flight = max with a further caller queued AND contains a cancellation while queued/running, an inner panic, or a release and an arrival in the same instant; distinct by hash of the case".into()
     }
     fn assumptions(&self) -> Vec<String> {
         vec![
